@@ -12,6 +12,51 @@ VERIF = Path(__file__).resolve().parent.parent
 
 # id -> (level category, technique, level text, level note, design section)
 CHECKS = {
+    "C02": (
+        "exploration",
+        "Hypothesis metamorphic search: footprint call vs forward call on the same generated inputs (reciprocity identity)",
+        "Two public calls on thousands of structurally different generated inputs (odd sizes, dx != dy, incommensurate and default "
+        "halos, truncated modes, all closures, both precisions) must satisfy an exact discrete identity to the rounding model; "
+        "shrunk counterexamples become replay files.",
+        "Growth of the shooting method bounded by construction; ascending levels.",
+    ),
+    "C03": (
+        "exploration",
+        "Hypothesis search against exact invariants (means, unit sum, trapezoidal/exact resistance) and a differential halo==padding relation",
+        "Conservation laws are exact algebraic identities of the discrete algorithm, observed on the whole periodic domain with halo=0; "
+        "halo equivalence compares two public calls.",
+        "Pad widths as documented (int(halo/dx)); closed-form resistance only for families that have one.",
+    ),
+    "C04": (
+        "exploration",
+        "Hypothesis search of the linearity law over generated (q1,q2,a,b,c1,c2), numerical and analytic mode; bit-identity of footprints",
+        "Linear-combination identity to the rounding model, uniform background offset, and exact independence of footprints from source values.",
+        "Growth bounded by construction; ascending levels.",
+    ),
+    "C06": (
+        "exploration",
+        "Hypothesis metamorphic search: integer cell shifts of source and tower, point reflection, re-centring as np.roll",
+        "Translation equivariance on the periodic domain is exact for whole-cell shifts; each relation compares two public calls.",
+        "halo=0; on-grid measurement points only.",
+    ),
+    "C07": (
+        "exploration",
+        "Hypothesis metamorphic search: mirrored / transposed / rescaled problems vs mirrored / transposed / rescaled outputs",
+        "Each symmetry of the PDE is an exact relation between two public calls; mirrors compared strictly inside the retained band as the property excepts Nyquist components.",
+        "Mirrors with halo=0; length similarity only when the halo is the same number of cells in both problems.",
+    ),
+    "C10": (
+        "exploration",
+        "Hypothesis differential search: multi-level call vs single-level calls vs full-column call over generated ordered level selections and argument types",
+        "Slice k must be the single-level solution of levels[k] under its own height; orders, types, modes, analytic/numerical, precisions generated.",
+        "Distinct levels only.",
+    ),
+    "C11": (
+        "exploration",
+        "exhaustive enumeration (13824 size/modes/halo/mode configurations) + Hypothesis search against an independent numpy.fft low-pass reference",
+        "Every configuration in the stated small range is solved and its level-0 flux compared with an independent registration oracle; spectral nesting and clamp rules checked; raises are allowed, misregistration is not.",
+        "Exhaustive only within nx,ny in 2..9 and the listed mode counts/halos; larger sizes sampled.",
+    ),
     "C16": (
         "exploration",
         "exhaustive enumeration of the pattern space against a reference model + Hypothesis value search",
